@@ -92,6 +92,24 @@ Theorem C03_op_plant_sat : forall n total smart knuth, 0 <= n -> exists a, cnf_s
 Proof. exact op_plant_sat. Qed.
 Print Assumptions C03_op_plant_sat.
 
+(* T1 for the variants that state every transitivity axiom: the models are exactly the strict orders
+   (total for `total` and for the compact representation) in which every vertex -- but the last one when
+   planted -- has a neighbour before it.  (The Knuth variants state fewer axioms; their models need not be
+   transitive, which is why the planted theorem above goes through a linear order instead.) *)
+Theorem C03_gop_plain_T1 : forall nb total plant knuth a, graph_ok nb = true -> full_trans knuth ->
+  (cnf_sat a (gop_cnf nb total false plant knuth) = true <-> order_axioms nb total plant (Rel a false (len nb))).
+Proof. exact gop_plain_T1. Qed.
+Print Assumptions C03_gop_plain_T1.
+Theorem C03_gop_smart_T1 : forall nb total plant knuth a, graph_ok nb = true ->
+  (cnf_sat a (gop_cnf nb total true plant knuth) = true <-> order_axioms nb true plant (Rel a true (len nb))).
+Proof. exact gop_smart_T1. Qed.
+Print Assumptions C03_gop_smart_T1.
+(* one assignment per relation: distinct ordered pairs have distinct variables inside 1..numvar *)
+Theorem C03_gop_vars : forall n u v u' v', 1 <= u <= n -> 1 <= v <= n -> u <> v -> 1 <= u' <= n -> 1 <= v' <= n -> u' <> v' ->
+  (1 <= pid n u v <= gop_numvar n false) /\ (pid n u v = pid n u' v' -> u = u' /\ v = v').
+Proof. intros n u v u' v' H1 H2 H3 H4 H5 H6. split; [exact (pid_range n u v H1 H2 H3)|exact (pid_inj n u v u' v' H1 H2 H3 H4 H5 H6)]. Qed.
+Print Assumptions C03_gop_vars.
+
 (* ================= (3) Ramsey-type benchmarks ================= *)
 Theorem C03_ram_T1 : forall s k N a, cnf_sat a (ram_cnf s k N) = true <-> ram_good s k N (fun u v => a (cid N u v)).
 Proof. exact ram_T1. Qed.
